@@ -78,7 +78,7 @@ func c07XNodes(items []int) (nodes []*Node, slots []string) {
 	return nodes, slots
 }
 
-const c07ArgVariants = 9
+const c07ArgVariants = 11
 const c07SlotVariants = 4
 
 // c07UseNode builds one component use; idx makes its argument values and slot bodies unique.
@@ -121,6 +121,10 @@ func c07UseNode(u c07Use, idx int, xSlots []string, loopVar string) *Node {
 		n.HasArgs, n.Keys, n.Vals = true, []string{"a", "o"}, []*Expr{eVar("v"), eVar("a")}
 	case 8: // the reserved name as an argument
 		n.HasArgs, n.Keys, n.Vals = true, []string{"a", "loop"}, []*Expr{eLit(lit), eLit(vInt(1))}
+	case 9: // a nil argument stands in front of the caller's o like any other value
+		n.HasArgs, n.Keys, n.Vals = true, []string{"a", "o"}, []*Expr{eLit(lit), eLit(vNil())}
+	case 10: // the last value is an object itself: its closing brace stands right before the closing brace of the arguments
+		n.HasArgs, n.Keys, n.Vals = true, []string{"a", "u"}, []*Expr{eLit(lit), {Op: "obj", Keys: []string{"n"}, Kids: []*Expr{eVar("v")}}}
 	case 6: // falsy argument
 		n.HasArgs, n.Keys, n.Vals = true, []string{"a"}, []*Expr{eLit(vStr(""))}
 	}
@@ -295,7 +299,7 @@ func c07Check(cs c07Case) (ok bool, sig, expected, observed string) {
 				nx++
 			}
 			set[fmt.Sprintf("place%d", u.Place)] = true
-			if u.Arg >= 4 && u.Arg <= 5 {
+			if (u.Arg >= 4 && u.Arg <= 5) || u.Arg == 9 {
 				set[fmt.Sprintf("shadow-arg%d", u.Arg)] = true
 			}
 			if u.Slots > 0 {
